@@ -39,4 +39,13 @@ def renderRor2Items (esc : Bytes → Bytes) : List Doc → Bytes
   | v :: rest => renderRor2 esc v ++ 44 :: renderRor2Items esc rest
 end
 
+/-- what `ror2PathWriter` writes for a value handed to it directly (an entity key in a resource
+path): a string or bytes value that is exactly `.` or `..` would be a dot segment and is written
+`%2E` / `%2E%2E` (`ror2PathWriter.WriteString`); everything else — and every string nested in a map
+or array — as the underlying writer does -/
+def renderRor2Path (esc : Bytes → Bytes) : Doc → Bytes
+  | .str b => if b == [46] then [37, 50, 69] else if b == [46, 46] then [37, 50, 69, 37, 50, 69] else ror2Str esc b
+  | .bytes b => if b == [46] then [37, 50, 69] else if b == [46, 46] then [37, 50, 69, 37, 50, 69] else ror2Str esc b
+  | d => renderRor2 esc d
+
 end Restli.Codec
